@@ -108,7 +108,8 @@ def run(gaf_path, gfa=None, output=None, index=None, nodes=[], regions=[], forma
         if regions:
             assert nodes == []
             nodes = get_unstable(regions, ind)
-        offsets = ind[ind_dict[nodes[0]]]
+        # a record that visits a node more than once is listed once per visit in the index
+        offsets = list(set(ind[ind_dict[nodes[0]]]))
         for nd in nodes[1:]:
             # extracting all the lines that touches at least one of the nodes
             offsets = list(set(offsets) | set(ind[ind_dict[nd]]))
